@@ -62,6 +62,9 @@ def mutate(rng, s):
 FIXED = [":silent,", ":silent", "f($a", "f($a)", "$nope", "plus($a,$b)", "1.5", "-", "f()", "f(x)(y)", "x y", ":p1:p2(x)", "f(,)", "_", "f(g(h($a)))",
          "", " ", "(", ")", "$", ":", "$a$b", "a:b", "1.", "1.x", "-3.5x", "x'", "x/y", "f(x,)", "f(x))", "((x))", "f(x)(", "$a:infix($b)", "f:prefix($a):p",
          "f ( $a , $b )", "　f($a)　", "f(" * 40 + "x" + ")" * 40, "f(" * 40 + "x", ",".join(["$a"] * 30), "f($a,$c)", "$a($b)", "3($a)", "f(:silent)", "f(:p($a))",
+         # long values with characters of several bytes after the place where the error is (messages quote the rest of the value)
+         "=приблизительноравно($a,$b)", ") " + "é" * 40, "a ) " + "é" * 40, "ab ) " + "Ω" * 40, "abc ) " + "α" * 40, "f($a) " + "😀" * 20, "f($a)x" + "　" * 30,
+         "$a $b " + "ñ" * 33, ":p " + "ü" * 35, "f(" + "β" * 50,
          # names that are also names of MathML elements
          "mi($a)($b)", "mn($a)($b)", "mtext($a,$b)($a)", "mi($a)", "mo($b)", "ms($a)($a)($b)", "mrow($a,$b)", "mfrac($a,$b)", "math($a)", "msup($b)($a)", "mtable($a)"]
 
